@@ -29,6 +29,7 @@ impl World {
             "all" => "SELECT x FROM t".into(),
             "count" => "SELECT COUNT(*) AS n FROM t".into(),
             "limit1" => "SELECT x FROM t LIMIT 1".into(),
+            "limit2" => "SELECT x FROM t LIMIT 2".into(),
             "from" => format!("SELECT x FROM t::'{}'", self.path("fc")),
             "frommissing" => format!("SELECT x FROM t::'{}'", self.path("missing")),
             "parsebad" => "SELEC x FROM t".into(),
@@ -89,6 +90,7 @@ pub fn replay(cases: &[J]) -> J {
         let format = case["format"].as_str().unwrap();
         args.push("--format".into()); args.push(format.into());
         if case["stats"] == true { args.push("--show-run-stats".into()); }
+        if case["follow"] == true { args.push("-f".into()); args.push("--head".into()); }
         let use_stdin = case["stdin"] == true;
         if use_stdin { args.push("--stdin".into()); }
         let mut cmd = Command::new(cli());
@@ -106,7 +108,7 @@ pub fn replay(cases: &[J]) -> J {
         let same = lines.len() == exp.len() && exp.iter().zip(lines.iter()).all(|(e, l)| line_matches(e, l, format, &col));
         if exit_ok && !crashed && same {
             rep.count(&format!("query_{}", case["query"].as_str().unwrap()));
-            let key = format!("{}|{}|{}|{}|{}|{}|{}", case["files"], case["query"], case["defs"], format, case["stdin"], case["stats"], case["cmdsrc"]);
+            let key = format!("{}|{}|{}|{}|{}|{}|{}|{}", case["files"], case["query"], case["defs"], format, case["stdin"], case["stats"], case["cmdsrc"], case["follow"]);
             rep.ok(case, key, exp.iter().any(|e| e["k"] == "rec"));
         } else {
             rep.mismatch(case, json!({"stdout": exp, "exit": case["exit"]}),
